@@ -455,7 +455,7 @@ def gen_table_case(rng, idx):
         return {"kind": "loader", "id": idx, "what": "mdocdose", "sort": rng.random() < 0.7,
                 "imgs": [{"tilt": t, "prior": rng.choice([0, rng.randint(0, 20000), rng.randint(0, 20000)]), "expo": rng.choice([0, rng.randint(1, 500), rng.randint(1, 500), rng.randint(1, 500)])} for t in tl]}
     if r < 0.5:
-        fmt = rng.choice(["gctf", "gctf_nophase", "ctffind4"])
+        fmt = rng.choice(["gctf", "gctf_nophase", "ctffind4", "array", "frame"])
         return {"kind": "loader", "id": idx, "what": "defocus", "fmt": fmt, "via": rng.choice(["read", "defocus_load"]),
                 "rows": gen_ctf(rng, n, fmt != "gctf_nophase")}
     # wedge lists
@@ -487,6 +487,70 @@ def gen_table_case(rng, idx):
             "dims_input": rng.choice(["same"] if same_dims else ["table", "table_file", "per_tomo_files"]),
             "z_input": rng.choice(["scalar"] if same_z else ["table", "table_file", "frame", "per_tomo_files"]),
             "shuffle": rng.randrange(1000), "variant": rng.randrange(8)}
+
+
+def sweep_cases(rng, first_id, nhi):
+    """Every number of tilts 1..nhi for every input form of every loader and of the single-tomogram builder (shape
+    dependent behaviour hides at particular small N, e.g. N equal to the number of columns)."""
+    out = []
+    idx = first_id
+    for n in range(1, nhi + 1):
+        for fmt in ("gctf", "gctf_nophase", "ctffind4", "array", "frame"):
+            out.append({"kind": "loader", "id": idx, "what": "defocus", "fmt": fmt, "via": ["read", "defocus_load"][(n + len(fmt)) % 2],
+                        "rows": gen_ctf(rng, n, fmt != "gctf_nophase")})
+            idx += 1
+        for inp in ("file", "array", "list", "mdoc"):
+            vals = gen_tilts(rng, n)
+            if inp == "mdoc":
+                rng.shuffle(vals)
+            out.append({"kind": "loader", "id": idx, "what": "tlt", "vals": vals, "sort": True, "input": inp})
+            idx += 1
+        for inp in ("file", "array", "list"):
+            out.append({"kind": "loader", "id": idx, "what": "dose", "vals": [gen_dose(rng) for _ in range(n)], "input": inp})
+            idx += 1
+        for ctf in ("array", "gctf", "ctffind4"):
+            tomo = {"id": rng.randint(1, 998), "tilts": gen_tilts(rng, n), "ctf": gen_ctf(rng, n, True),
+                    "dose": [gen_dose(rng) for _ in range(n)], "dim": [rng.randint(100, 5000), rng.randint(100, 5000), rng.randint(50, 3000)],
+                    "zshift": gen_zshift(rng)}
+            out.append({"kind": "wedge", "id": idx, "what": "single", "tomos": [tomo], "consts": gen_consts(rng), "tomo_input": "array",
+                        "ctf": ctf, "dose": ["file", "array"][n % 2], "tlt_input": ["file", "array"][(n // 2) % 2],
+                        "dims_input": "same", "z_input": "scalar", "shuffle": 0, "variant": n % 6})
+            idx += 1
+    # every combination of the accepted forms of the per-tomogram inputs of the batch builder (sampling the forms
+    # leaves some of them out of a short run)
+    k = 0
+    for dims_input in ("same", "table", "table_file", "per_tomo_files"):
+        for z_input in ("scalar", "table", "table_file", "frame", "per_tomo_files"):
+            nt = 2 + k % 3
+            ids = rng.sample(range(1, 999), nt)
+            tomo_input = ["array", "file"][k % 2]
+            mode = ["batch", "batch", "sg2em"][k % 3]
+            if tomo_input == "file" or mode == "sg2em":
+                ids.sort()
+            ctf = ["none", "gctf", "ctffind4", "gctf_nophase"][k % 4]
+            dose = ["none", "file"][(k // 2) % 2]
+            dim0 = [rng.randint(100, 5000), rng.randint(100, 5000), rng.randint(50, 3000)]
+            zs0 = gen_zshift(rng)
+            tomos = []
+            for t in ids:
+                n = rng.randint(1, 9)
+                tomos.append({"id": t, "tilts": gen_tilts(rng, n), "ctf": gen_ctf(rng, n, ctf != "gctf_nophase") if ctf != "none" else [],
+                              "dose": [gen_dose(rng) for _ in range(n)] if dose != "none" else [],
+                              "dim": list(dim0) if dims_input == "same" else [rng.randint(100, 5000), rng.randint(100, 5000), rng.randint(50, 3000)],
+                              "zshift": zs0 if z_input == "scalar" else gen_zshift(rng)})
+            out.append({"kind": "wedge", "id": idx, "what": mode, "tomos": tomos, "consts": gen_consts(rng), "tomo_input": tomo_input,
+                        "ctf": ctf, "dose": dose, "tlt_input": "file", "dims_input": dims_input, "z_input": z_input,
+                        "shuffle": rng.randrange(1000), "variant": k})
+            idx += 1
+            k += 1
+    for tomo_input in ("array", "file"):
+        ids = sorted(rng.sample(range(1, 999), 3))
+        out.append({"kind": "wedge", "id": idx, "what": "em", "tomo_input": tomo_input, "consts": gen_consts(rng), "ctf": "none",
+                    "dose": "none", "tlt_input": "file", "dims_input": "same", "z_input": "scalar", "shuffle": 0, "variant": 0,
+                    "tomos": [{"id": t, "tilts": gen_tilts(rng, rng.randint(1, 9)), "ctf": [], "dose": [], "dim": [100, 100, 50],
+                               "zshift": 0} for t in ids]})
+        idx += 1
+    return out
 
 
 def mdoc_text(imgs, with_dose=True):
@@ -584,7 +648,15 @@ def exec_table_case(case, wd):
                 out.append(("mdocdose", ints(got, 100)))
             else:
                 rows = case["rows"]
-                if case["fmt"] == "ctffind4":
+                if case["fmt"] in ("array", "frame"):
+                    arr = np.array([[r["u"] / 1e5, r["v"] / 1e5, r["ang"] / 100.0, r["ps"] / 1000.0,
+                                     (r["u"] / 1e5 + r["v"] / 1e5) / 2.0] for r in rows])
+                    if case["fmt"] == "frame":
+                        from .. import motlutil
+                        arr = motlutil.vary_index(pd.DataFrame(arr, columns=["defocus1", "defocus2", "astigmatism",
+                                                                             "phase_shift", "defocus_mean"]), case["id"])
+                    df = ioutils.defocus_load(arr)
+                elif case["fmt"] == "ctffind4":
                     path = os.path.join(wd, "ctf.txt")
                     tm.write_ctffind4(path, rows)
                     df = ioutils.ctffind4_read(path) if case["via"] == "read" else ioutils.defocus_load(path, "ctffind4")
@@ -941,8 +1013,9 @@ def run(ctx):
         for b in range(0, total, 100):
             run_random_mdocs(ctx, cases[b:b + 100], corrupt=corrupt if b == 0 else None)
     if want("tables"):
-        total = ctx.pick(70, 2500)
-        cases = [gen_table_case(ctx.rng, 100000 + i) for i in range(total)]
+        total = ctx.pick(30, 2500)
+        cases = sweep_cases(ctx.rng, 300000, ctx.pick(12, 20)) + [gen_table_case(ctx.rng, 100000 + i) for i in range(total)]
+        total = len(cases)
         corrupt = os.environ.get("VERIF_C17_CORRUPT") or None
         for b in range(0, total, 500):
             run_tables(ctx, cases[b:b + 500], corrupt=corrupt if b == 0 else None)
